@@ -396,6 +396,37 @@ def run(world, rep, tier, only=None):
                    (st.text()[:40], st.line, has_sz("ext2_dx_tail")))
     rep.floor("C10.k stores of an index node's limit in link.c", n_k, 1)
 
+    # ------------------------------------------------------------------ C10.m a split leaves something behind
+    # dx_split_leaf() picks the first entry to move, i, by size; when the live entries of a thinned-out leaf do not
+    # fill half a block the scan selects all of them (i == 0).  The old leaf is then repacked with nothing - a stale
+    # copy of the lowest entry stays in it and the name is listed twice - and map[i - 1] lies in front of the array.
+    # Wherever link.c indexes with `v - 1`, the value v has passed a test against 0 (or 1) on every path.
+    from vlib import width as _w10
+    n_m = 0
+    for f in dbg.fns_in_file("lib/ext2fs/link.c"):
+        for n in f.nodes():
+            if not n.ev:
+                continue
+            for key in ("x", "lhs", "rhs"):
+                e = n.ev.get(key)
+                if not isinstance(e, dict):
+                    continue
+                for x in T.walk(e):
+                    if not (isinstance(x, dict) and x.get("k") == "x"):
+                        continue
+                    ix = T.strip(x.get("i") or {})
+                    if not (isinstance(ix, dict) and ix.get("k") == "b" and ix.get("o") == "-" and T.const(ix.get("r")) == 1):
+                        continue
+                    v = T.strip(ix.get("l"))
+                    if not (isinstance(v, dict) and v.get("k") == "v" and v.get("s") == "l"):
+                        continue
+                    n_m += 1
+                    tested = [a_ for t, a_ in control_lits(f, n) if t is not None and v["n"] in T.vars_in(a_) and
+                              (T.path(a_) == v["n"] or any(T.const(y) in (0, 1) for y in T.walk(a_) if isinstance(y, dict)))]
+                    rep.ob("C10.m", site(f, "index %s - 1 is not in front of the array#%d" % (v["n"], n_m)), bool(tested),
+                           "`%s` (line %d): %s has passed a comparison with 0 or 1: %s" % (T.pp(x)[:30], n.line, v["n"], [T.pp(a_)[:20] for a_ in tested][:2]))
+    rep.floor("C10.m `v - 1` subscripts in link.c", n_m, 1)
+
     # ------------------------------------------------------------------ C10.l a name that does not fit a directory entry is refused
     # name_len is one byte: ext2fs_link() must compare the length with EXT2_NAME_LEN before either the linear or the
     # htree insertion runs, or a 300-byte name is stored as the 44-byte name its length modulo 256 gives
